@@ -1,5 +1,5 @@
 (* The block-parser models instantiated with the tables dumped from the running code. *)
-Require Import GM.model.Base GM.model.Util GM.model.Reader GM.model.Blocks GM.model.ListItem GM.model.LeafBlocks GM.model.CodeSpan.
+Require Import GM.model.Base GM.model.Util GM.model.Reader GM.model.Blocks GM.model.ListItem GM.model.LeafBlocks GM.model.CodeSpan GM.model.CodeBlock.
 Require Import GM.gen.Tables.
 
 Definition ListItemOpen := list_item_open space_table.
@@ -8,3 +8,6 @@ Definition AtxOpenR := atx_open_r space_table.
 Definition FenceOpenR := fence_open_r space_table.
 Definition FenceContinueR := fence_continue_r space_table.
 Definition CodeSpanParse := code_span_parse space_table.
+Definition CodeBlockOpen := code_block_open space_table.
+Definition CodeBlockContinue := code_block_continue space_table.
+Definition CodeBlockClose := code_block_close space_table.
